@@ -1261,9 +1261,15 @@ impl InstructionHandler for DefaultHandler {
                         .iter()
                         .flat_map(|row| row.iter().flat_map(Expression::memory_references)),
                 ),
-                GateSpecification::Permutation(_) | GateSpecification::PauliSum(_) => {
-                    MemoryAccesses::none()
-                }
+                GateSpecification::Permutation(_) => MemoryAccesses::none(),
+                GateSpecification::PauliSum(PauliSum {
+                    terms,
+                    arguments: _,
+                }) => read_all(
+                    terms
+                        .iter()
+                        .flat_map(|term| term.expression.memory_references()),
+                ),
                 GateSpecification::Sequence(DefGateSequence { gates, qubits: _ }) => gates
                     .iter()
                     .map(gate_application)
@@ -1291,6 +1297,20 @@ impl InstructionHandler for DefaultHandler {
                 name: _,
             }) => read_all(matrix.iter().flat_map(Expression::memory_references)),
 
+            // Frame definitions read from memory through their expression-valued attributes.
+            Instruction::FrameDefinition(FrameDefinition {
+                attributes,
+                identifier: _,
+            }) => read_all(
+                attributes
+                    .values()
+                    .filter_map(|value| match value {
+                        AttributeValue::Expression(expression) => Some(expression),
+                        AttributeValue::String(_) => None,
+                    })
+                    .flat_map(Expression::memory_references),
+            ),
+
             // Dynamic memory accesses.  If we ever track region indices precisely, these will
             // require conservatively marking accesses (read for load, write for store) as blocking
             // the whole region.
@@ -1317,7 +1337,6 @@ impl InstructionHandler for DefaultHandler {
             // `INCLUDE`, which we don't handle here, and `PRAGMA`, which we can't.
             Instruction::Declaration(_)
             | Instruction::Fence(_)
-            | Instruction::FrameDefinition(_)
             | Instruction::Halt()
             | Instruction::Wait()
             | Instruction::Include(_)
